@@ -310,8 +310,11 @@ func FP(c *Case) uint64 {
 var names = kit.BuiltinNames()
 
 func Gen(t *rapid.T) *Case {
-	c := &Case{T: rapid.SampledFrom(names).Draw(t, "type"), C: rapid.IntRange(1, 8).Draw(t, "channels")}
+	c := &Case{T: rapid.SampledFrom(names).Draw(t, "type"), C: kit.GenChannels(t)}
 	c.Kr, c.A, c.B = kit.GenWindow(t, "d", 300)
+	if c.C > 8 { // wide frames: keep the roots moderate, the interesting part is where the runtime's size classes fall
+		c.Kr, c.A, c.B = kit.GenWindow(t, "dWide", 60)
+	}
 	ln, cp := c.B-c.A, c.Kr-c.A // frames
 	moved := false
 	n := rapid.IntRange(1, 4).Draw(t, "nappends")
